@@ -119,7 +119,9 @@ def handleRate (case : Nat) (j : Json) : IO Unit := do
   let toObs (l : List RObs) : List Obs := l.map (fun o => ⟨o.send, o.recv, o.status == 200⟩)
   let rated := lim.perIP > 0 && lim.burst ≥ 0
   let b1 := !rated || withinBound lim.perIP lim.burst (toObs px)
-  let b2 := px.all (fun o => excess429 (o.status == 200) o.status)
+  -- a 5xx is not a refusal of the admission layer (it would be a broken scenario: the backend always
+  -- answers); it shows up as a disagreement, never as a status violation
+  let b2 := px.all (fun o => o.status ≥ 500 || excess429 (o.status == 200) o.status)
   let spec := b1 && b2
   let sig :=
     if spec then "" else
